@@ -13,7 +13,7 @@
 From Coq Require Import String Ascii ZArith NArith QArith List Bool.
 From Typify Require Import Base.Json Spec.Schema Spec.Valid IR.TypeIR IR.Serde Check.Covers Check.Exact
   Proofs.ExactProofs.
-From Typify Require Algo.StrConv Proofs.StrConvProofs Algo.Emit Proofs.EmitProofs Algo.Defaults.
+From Typify Require Algo.StrConv Proofs.StrConvProofs Algo.Emit Proofs.EmitProofs Algo.Defaults Proofs.SerdeProofs.
 Import ListNotations.
 Close Scope Q_scope.
 Close Scope string_scope.
@@ -88,16 +88,31 @@ Theorem C05_value_newtype_inner :
     de re_match native_ok T (S f) t v = Some x -> de re_match native_ok T f inner v <> None.
 Proof. exact value_newtype_inner. Qed.
 
-(* required properties: every PRequired member of a non-Option type is present *)
+(* required properties: every PRequired member is present, unless its type reaches an
+   Option through Box / `#[serde(transparent)]` newtypes / value-constrained newtypes
+   ([SerdeProofs.missing_val] = the chase serde's `missing_field` performs: such a member is
+   accepted when absent).  [missing_val T g i = None] for every g is decidable
+   (Check/Exact.reaches_option over-approximates it: ExactProofs.reaches_option_chase). *)
 Theorem C05_required_enforced :
   forall (re_match native_ok : ustring -> ustring -> bool) (T : space) (f : nat) (t : id)
          (kvs : list (ustring * json)) (x : rval) n d ps deny,
     get_det T t = Some (DStruct n d ps deny) ->
     de re_match native_ok T f t (JObj kvs) = Some x ->
     forall p w, In p ps -> p_state p = PRequired -> wire_name p = Some w ->
-                (forall t', get_det T (p_ty p) <> Some (DOption t')) ->
+                (forall g, SerdeProofs.missing_val T g (p_ty p) = None) ->
                 has_key w kvs = true.
 Proof. exact required_enforced. Qed.
+
+(* with the weaker side condition "not a DIRECT Option" the statement is false:
+   `a : D0`, `struct D0(Option<bool>)`, instance {} *)
+Theorem C05_required_enforced_direct_refuted :
+  exists re native T f t kvs x n d ps deny p w,
+    get_det T t = Some (DStruct n d ps deny) /\
+    de re native T f t (JObj kvs) = Some x /\
+    In p ps /\ p_state p = PRequired /\ wire_name p = Some w /\
+    (forall t', get_det T (p_ty p) <> Some (DOption t')) /\
+    has_key w kvs = false.
+Proof. exact required_enforced_direct_refuted. Qed.
 
 (* closed objects: deny_unknown_fields and nothing flattened => every key is a member's wire name *)
 Theorem C05_closed_enforced :
